@@ -718,6 +718,10 @@ def check_no_global_mutation(ctx, funcs: typing.Iterable[FuncInfo], rule="STATE-
   ix = ctx.ix
   allowed = allowed or {}
   n = 0
+  ty_ = None
+  verdicts: typing.Dict[str, typing.List[str]] = {}
+  evictions = []
+  funcs = list(funcs)
   for f in funcs:
     aliases = {}
     for st in own_nodes(f.node):
@@ -748,8 +752,35 @@ def check_no_global_mutation(ctx, funcs: typing.Iterable[FuncInfo], rule="STATE-
       key = f"{f.qualname}|{short(c, 60)}"
       if g in allowed:
         ctx.ok(rule, key + "|allowed", ctx.where(f.module, c), "tabled: " + allowed[g])
+        continue
+      from . import memo
+      if ty_ is None:
+        from ..typing_lite import Typer
+        ty_ = Typer(ix)
+      try:
+        verdict, why = memo.analyse_store(ix, ty_, f, c, g)
+      except RecursionError:
+        verdict, why = "undecided", "dependence slice too deep"
+      if verdict == "evict":
+        evictions.append((f, c, g, key))
+        continue
+      verdicts.setdefault(g, []).append(verdict)
+      if verdict == "sound":
+        ctx.ok(rule, key + "|memo", ctx.where(f.module, c), why)
+      elif verdict == "undecided":
+        ctx.undecide(rule, f"{key}: {why}")
+      elif verdict == "violation":
+        ctx.bad(rule, key, ctx.where(f.module, c), f"`{short(c, 60)}` fills the module/class-level object `{g}`, which outlives the call, and it is not a sound memo: {why}")
       else:
         ctx.bad(rule, key, ctx.where(f.module, c), f"`{short(c, 60)}` mutates the module/class-level object `{g}`: the change persists into later calls in the same process")
+  for (f, c, g, key) in evictions:
+    vs = verdicts.get(g, [])
+    if vs and all(v == "sound" for v in vs):
+      ctx.ok(rule, key + "|memo eviction", ctx.where(f.module, c), f"entries of the memo `{g}` are dropped (they are recomputed)")
+    elif vs and all(v in ("sound", "undecided") for v in vs):
+      ctx.undecide(rule, f"{key}: eviction from a container whose stores are undecided")
+    else:
+      ctx.bad(rule, key, ctx.where(f.module, c), f"`{short(c, 60)}` mutates the module/class-level object `{g}`: the change persists into later calls in the same process")
   return n
 
 
